@@ -21,6 +21,8 @@ def obligations(tier):
         for f in range(8):
             obs.append(Ob(f"C02.note_from_datas.M4.first{f}", "CH", "harness.h_instrument", "note_from_datas", 900, {"VF_M": 4, "VF_FIRST": f},
                           funcs=(IN + "Note.from_parsed_datas",), bounds="4 data, first index fixed per partition"))
+    obs.append(Ob("C02.grouping_loop.file_scale", "CH", "harness.h_instrument", "grouping_loop_large", 900, funcs=(IN + "InstrumentTrack._build_note_events_from_data",),
+                  bounds="8200 note lines, one run of 2-3 equal ticks at a solver-chosen position among 13 sizes (1, 63/64, ... 4095/4096, 8191/8192); native execution, recorder from_parsed_data"))
     obs.append(Ob("C02.note_subsets", "CH", "harness.h_instrument", "note_subsets", 900, funcs=(IN + "Note.from_parsed_datas",),
                   bounds="all 32 lane subsets (up to 5 lane lines at a tick), rotated/reversed line order, tap/forced lines"))
     obs.append(Ob("C02.dispatcher", "CH", "harness.h_track", "dispatcher", 300, {"VF_NL": 4 if tier == "thorough" else 3},
